@@ -290,6 +290,7 @@ func execReceiver(input string) string {
 		}
 		return nil
 	})
+	failureReports := 0 // at most two scripted delivery failures per case (each costs a pause for the report loop to act)
 	var outs []string
 	var opsF [][]string
 	for _, seg := range segs[1:] {
@@ -369,7 +370,8 @@ func execReceiver(input string) string {
 						pre = fmt.Sprintf("K=%s W=%s:%s:%s:%s ", hx(km.Key), hx([]byte(w.Message.MessageType)), hx([]byte(w.Message.Key)), hx(w.Message.Payload), b01(w.Acknowledged))
 					}
 					recv.VerifProcessEvent(&kafka.Message{TopicPartition: kafka.TopicPartition{Topic: &topic}, Key: km.Key, Value: km.Value})
-					if (len(km.Value)+k)%4 == 0 {
+					if (len(km.Value)+k)%4 == 0 && failureReports < 2 {
+						failureReports++
 						// the broker reports this record as not delivered (after later records of the run were queued)
 						failed := *km
 						failed.TopicPartition.Error = errors.New("scripted delivery failure")
